@@ -53,10 +53,10 @@ func EnumCase(path, in string, data interface{}, enum interface{}, caseSensitive
 	for i := 0; i < val.Len(); i++ {
 		ele := val.Index(i)
 		enumValue := ele.Interface()
+		if reflect.DeepEqual(data, enumValue) {
+			return nil // also when both are nil
+		}
 		if data != nil {
-			if reflect.DeepEqual(data, enumValue) {
-				return nil
-			}
 			enumString := convertEnumCaseStringKind(enumValue, caseSensitive)
 			if dataString != nil && enumString != nil && strings.EqualFold(*dataString, *enumString) {
 				return nil
